@@ -796,6 +796,53 @@ TASKS = [
     Task("gaussian_mlp[separate_heads,rank1]", mk_gaussian_mlp(False, [], 1)),
 ]
 
-TRUSTED = []
-ASSUMPTIONS = []
-NOT_COVERED = []
+REPLAY = {
+    "call": "c17_pets", "base_predict": "c17_pets", "base_distribution": "c17_pets", "aggregate": "c17_pets",
+    "gaussian_nll": "c17_pets", "gaussian_ensemble_loss": "c17_pets", "bootstrap": "c17_pets", "train_epoch": "c17_pets",
+    "train_ensemble": "c17_pets", "evaluate_plans": "c17_pets", "ts_inf": "c17_pets", "pendulum_reward": "c17_pets", "norm_angle": "c17_pets",
+}
+
+EXPLANATION = (
+    "The real GaussianMLPEnsemble.__init__ is executed symbolically (vmapped constructor, nested safe_log_var / forward closures "
+    "and their nnx.vmap in_axes); members are one uninterpreted row-wise function F(member(theta, i), row). Expected violations on the "
+    "unchanged tree (genuine defects, reproduced natively by replay/drivers/c17_pets.py): base_predict applies the DOUBLE vmap "
+    "_safe_log_var to a rank-2 log-variance slice -> variance of shape (n, d, d) instead of (n, d), and raises ValueError for a single "
+    "input vector; base_distribution applies the single vmap _safe_log_var_i to a rank-1 log-variance -> scale_diag of shape (d, d), "
+    "batch_shape (d,) for a single vector; ts_inf (which calls base_distribution with a single vector and keeps sample[0]) therefore "
+    "perturbs EVERY observation component with the standard deviation derived from the raw log-variance of output 0."
+)
+
+TRUSTED = [
+    "pyvc/lib/ext_ensemble.py: stacked nnx modules (vmapped constructor, nnx.vmap over a module = per-member slice, nnx.split / "
+    "jax.tree.map(x[i]) / nnx.merge = member i with jnp clamping), jax.random.choice(shape) / permutation(axis) models, "
+    "nnx.scan generic-iteration model, reshape(.., B, -1) / transpose(list) / jnp.split, real floor-division model",
+    "pyvc/lib/ext_tfp.py: MultivariateNormalDiag(loc, scale_diag) batch/event shapes and sample = loc + scale * key-determined noise",
+    "member network contract: GaussianMLP == uninterpreted row-wise function with heads [0,D) (mean) and [D,2D) (raw log-variance); "
+    "its shape clauses are checked by the gaussian_mlp[...] tasks, row-wise independence is the assumption of pyvc/lib/nnx_model.py",
+    "pyvc/tensor.py AXIOMS: softplus(x) > 0, softplus(x) > x, softplus(x) < max(x, 0) + 7/10 (ln 2 < 0.7), strict monotonicity; "
+    "sigmoid in (0, 1); exp > 0",
+]
+
+ASSUMPTIONS = [
+    "floats are reals: 'finite' log-variances is the statement lo_d < log_var < max(lo_d, hi_d) + ln 2 with -20 < lo_d < 0, -4 < hi_d < 5 "
+    "(no overflow / NaN modelling, so 'extreme raw log-variances' are covered as arbitrary reals only)",
+    "trained parameter values (theta, raw_min_log_var, raw_max_log_var) are arbitrary; n_ensemble, batch, feature and output sizes are symbolic "
+    "(>= 2; output size 1 and single vectors are separate scenarios)",
+    "pendulum_reward[gymnasium]: trigonometric lemma arccos(cos th) == |angle_normalize(th)| (principal value), cos in [-1, 1], "
+    "3.1415 < pi < 3.1416; Gymnasium's reward is its DOCUMENTED formula -(angle_normalize(th)^2 + 0.1 thdot^2 + 0.001 clip(u,-2,2)^2)",
+    "nnx.scan in train_epoch: generic iteration with arbitrary carried state (the step relation between iterations is not asserted)",
+    "train_ensemble: bootstrap and train_epoch are replaced by their contracts (tasks `bootstrap`, `train_epoch`); the joint shuffle is an "
+    "arbitrary bijection of the bootstrap columns determined by the epoch key",
+    "ts_inf: the standard-normal draw of step t is the noise term of the sample drawn with key split(key, H)[t] (any key-determined noise "
+    "that does not depend on the model is accepted as witness)",
+]
+
+NOT_COVERED = [
+    "GaussianMLP internals beyond shapes and layer counts (hidden layers + activation are abstracted to the row-wise member function F); "
+    "row-wise independence of nnx.Linear / activations is assumed, not proved",
+    "ts_inf only as bounded stand-in (plan_horizon 2, observation size 2, action size 1; samples / particles / members symbolic)",
+    "equality with the Pendulum simulator beyond its documented reward formula (dynamics, float32 rounding); checked natively on 146 states by the replay driver",
+    "statistical properties of bootstrap / shuffling (uniformity, independence) - only ranges, shapes and the injective column map",
+    "optimizer arithmetic (optax) and the values of the gradients in train_epoch; restore_checkpoint",
+    "floating-point overflow of exp / softplus for extreme raw log-variances",
+]
